@@ -375,6 +375,12 @@ class OrderedMultiDict(dict, MutableMappingSequence):
 
         kvlist = _insert_arg_helper(args)
 
+        if index < 0:
+            # Resolve a negative index once, as list.insert() would, so
+            # that several pairs stay together and in order (incrementing
+            # a negative index would otherwise cross zero).
+            index = max(0, len(self.__items) + index)
+
         for (key, value) in kvlist:
             self.__items.insert(index, (key, value))
             index += 1
